@@ -270,9 +270,19 @@ def _container(v, how):
 
 def make_cors(cfg):
     how = cfg.get('container', 'list')
-    return falcon.CORSMiddleware(allow_origins=_container(cfg['ao'], how),
-                                 expose_headers=_container(cfg['eh'], 'list' if how in ('set', 'frozenset') else how),
-                                 allow_credentials=_container(cfg['ac'], how))
+    given = [_container(cfg['ao'], how), _container(cfg['eh'], 'list' if how in ('set', 'frozenset') else how), _container(cfg['ac'], how)]
+    mw = falcon.CORSMiddleware(allow_origins=given[0], expose_headers=given[1], allow_credentials=given[2])
+    # the policy is what was configured at construction: the application goes on using (and changing) the collections it
+    # passed in - a settings list that gets another entry, a set that is cleared and refilled for another component
+    for coll in given:
+        if isinstance(coll, list):
+            coll.append('https://added-later.example')
+            coll.insert(0, D_)
+        elif isinstance(coll, set):
+            coll.clear()
+            coll.add(D_)
+            coll.add('https://added-later.example')
+    return mw
 
 
 def _act(a, resp):
